@@ -44,6 +44,10 @@ pub fn base_world(seed: u64, idx: u64, s: &dyn SuiteOps, hsm: bool) -> World {
     ops.extend(lops);
     threads.push(ops);
     b.interleave(&mut g, threads);
+    // an externally held key may serialize to an opaque handle rather than the scalar
+    if hsm && idx % 2 == 1 {
+        b.w.knobs.hsm_handle = true;
+    }
     b.w
 }
 
